@@ -48,7 +48,8 @@ type Pipe struct {
 	Table Table
 	Rules []PipeRule // parallel to Table.Aggs
 
-	memo map[string]*pipeMemo // name -> routing outcome and output keys (pure functions of the name for a fixed table)
+	memo    map[string]*pipeMemo // name -> routing outcome and output keys (pure functions of the name for a fixed table)
+	noLines [][]string           // the "nothing emitted" answer of Tick
 }
 
 type pipeMemo struct {
@@ -157,13 +158,20 @@ type PipeTick struct {
 
 // Tick closes the buckets that are due at `now` and routes the aggregate lines by name.
 func (p *Pipe) Tick(s *PipeState, now int64) PipeTick {
-	t := PipeTick{Lines: make([][]string, len(p.Rules)), Routes: map[string][]string{}}
+	t := PipeTick{}
 	for i, r := range p.Rules {
 		var due []int64
 		for b := range s.open[i] {
 			if b <= now-r.Wait {
 				due = append(due, b)
 			}
+		}
+		if len(due) == 0 {
+			continue
+		}
+		if t.Lines == nil {
+			t.Lines = make([][]string, len(p.Rules))
+			t.Routes = map[string][]string{}
 		}
 		sort.Slice(due, func(x, y int) bool { return due[x] < due[y] })
 		for _, b := range due {
@@ -180,6 +188,12 @@ func (p *Pipe) Tick(s *PipeState, now int64) PipeTick {
 			delete(s.open[i], b)
 		}
 		sort.Strings(t.Lines[i])
+	}
+	if t.Lines == nil {
+		if len(p.noLines) != len(p.Rules) {
+			p.noLines = make([][]string, len(p.Rules))
+		}
+		t.Lines = p.noLines // nothing due: no aggregation emits anything
 	}
 	for k := range t.Routes {
 		sort.Strings(t.Routes[k])
